@@ -467,7 +467,7 @@ static void exec_cmd(toks *t) {
     if (strcmp(c, "pkt.get") == 0) { /* pkt.get P name [R<n>] */ NEED(3); GETSLOT(pi, 1, 'P', NPKT, PKT, 1);
         { int isnull, rc, ri = t->n > 3 ? slot(t->tok[3], 'R', NREF) : -1; UChar *name = tok_ustr(t->tok[2], &isnull); cif_value_tp *v = NULL;
           rc = cif_packet_get_item(PKT[pi], name, (t->n > 3 && strcmp(t->tok[3], "-") == 0) ? NULL : &v);
-          if (ri >= 0) REF[ri] = (rc == CIF_OK) ? v : NULL;
+          if (ri >= 0 && rc == CIF_OK) REF[ri] = v;
           ob_printf(&OUT, "{\"rc\":%d,\"v\":", rc); if (rc == CIF_OK) dump_value(&OUT, v); else ob_puts(&OUT, "null"); ob_putc(&OUT, '}');
           h_free(name); } return; }
     if (strcmp(c, "pkt.remove") == 0) { /* pkt.remove P name [V<n>|-] */ NEED(3); GETSLOT(pi, 1, 'P', NPKT, PKT, 1);
@@ -526,7 +526,7 @@ static void exec_cmd(toks *t) {
           ob_printf(&OUT, "{\"rc\":%d,\"num\":\"%.17g\",\"rc2\":%d,\"su\":\"%.17g\",\"v\":", r1, d, r2, su); dump_value(&OUT, v); ob_putc(&OUT, '}'); } } return; }
     if (strcmp(c, "val.count") == 0) { NEED(2); { VREF(v, 1); { size_t n = 0; int rc = cif_value_get_element_count(v, &n); ob_printf(&OUT, "{\"rc\":%d,\"n\":%lu}", rc, (unsigned long) n); } } return; }
     if (strcmp(c, "val.getel") == 0) { /* val.getel <v> idx R<n>|- */ NEED(4); { VREF(v, 1); { int ri = slot(t->tok[3], 'R', NREF), rc; cif_value_tp *e = NULL;
-          rc = cif_value_get_element_at(v, (size_t) strtoul(t->tok[2], NULL, 10), &e); if (ri >= 0) REF[ri] = (rc == CIF_OK) ? e : NULL;
+          rc = cif_value_get_element_at(v, (size_t) strtoul(t->tok[2], NULL, 10), &e); if (ri >= 0 && rc == CIF_OK) REF[ri] = e;
           ob_printf(&OUT, "{\"rc\":%d,\"v\":", rc); if (rc == CIF_OK) dump_value(&OUT, e); else ob_puts(&OUT, "null"); ob_putc(&OUT, '}'); } } return; }
     if (strcmp(c, "val.setel") == 0 || strcmp(c, "val.insel") == 0) { NEED(4); { VREF(v, 1); { cif_value_tp *e; int owned, rc; t->pos = 3;
           if (parse_value_lit(t, &e, &owned)) { ob_puts(&OUT, "ERR value"); return; }
@@ -542,7 +542,7 @@ static void exec_cmd(toks *t) {
           if (parse_value_lit(t, &e, &owned)) { ob_puts(&OUT, "ERR value"); h_free(key); return; }
           rc = cif_value_set_item_by_key(v, key, e); if (owned && e) cif_value_free(e); h_free(key); put_rc(rc); } } return; }
     if (strcmp(c, "val.getkey") == 0) { /* val.getkey <v> key R<n>|- */ NEED(4); { VREF(v, 1); { int isnull, ri = slot(t->tok[3], 'R', NREF), rc; UChar *key = tok_ustr(t->tok[2], &isnull); cif_value_tp *e = NULL;
-          rc = cif_value_get_item_by_key(v, key, &e); if (ri >= 0) REF[ri] = (rc == CIF_OK) ? e : NULL;
+          rc = cif_value_get_item_by_key(v, key, &e); if (ri >= 0 && rc == CIF_OK) REF[ri] = e;
           ob_printf(&OUT, "{\"rc\":%d,\"v\":", rc); if (rc == CIF_OK) dump_value(&OUT, e); else ob_puts(&OUT, "null"); ob_putc(&OUT, '}'); h_free(key); } } return; }
     if (strcmp(c, "val.remkey") == 0) { /* val.remkey <v> key V<n>|- */ NEED(4); { VREF(v, 1); { int isnull, vi = slot(t->tok[3], 'V', NVAL), rc; UChar *key = tok_ustr(t->tok[2], &isnull); cif_value_tp *e = NULL;
           rc = cif_value_remove_item_by_key(v, key, vi >= 0 ? &e : NULL);
